@@ -11,7 +11,9 @@ import (
 	"net/http"
 	"net/url"
 	"os"
+	"path"
 	"path/filepath"
+	"strconv"
 	"strings"
 	"time"
 
@@ -53,6 +55,7 @@ type sreq struct {
 	method  string
 	path    string
 	query   string
+	target  string // request target sent instead of path?query (C19: absolute-form, authority-form)
 	hdrs    [][2]string
 	body    []byte
 	chunked bool
@@ -91,6 +94,7 @@ type siteRig struct {
 	hasAuth     bool
 	limit       int                 // 0 = none
 	limitSub    int                 // nested scope /p/sub
+	subScope    string              // how the nested scope is written: /p/sub or /p/sub/
 	siblings    map[string][]string // static file -> encodings present
 
 	port         int
@@ -388,6 +392,7 @@ func runSite(mode string) sim.RigFunc {
 				if r.limitSub == 0 {
 					r.limitSub = -1 // explicit "no nested scope"
 				}
+				r.subScope = []string{"/p/sub", "/p/sub/"}[st.Draw(2)]
 			}
 		}
 		if r.hasGzip {
@@ -423,7 +428,7 @@ func runSite(mode string) sim.RigFunc {
 			if r.limit > 0 {
 				fmt.Fprintf(&b, "\tlimits {\n\t\tbody /p %d\n", r.limit)
 				if r.limitSub > 0 {
-					fmt.Fprintf(&b, "\t\tbody /p/sub %d\n", r.limitSub)
+					fmt.Fprintf(&b, "\t\tbody %s %d\n", r.subScope, r.limitSub)
 				}
 				b.WriteString("\t}\n")
 			}
@@ -545,6 +550,8 @@ func runSite(mode string) sim.RigFunc {
 
 		w.Callback = func(string, string) error { return nil }
 		w.ProbeNext = r.probe
+		httpserver.VerifLogWriter = func(out io.Writer, name string) io.Writer { return &pieceWriter{w: out, r: r} }
+		defer func() { httpserver.VerifLogWriter = nil }()
 		c.AddSource(func(add func(sim.Event)) {
 			if !r.started || r.cleanup {
 				return
@@ -600,6 +607,32 @@ func runSite(mode string) sim.RigFunc {
 	}
 }
 
+// pieceWriter sits between a log and its output. An entry normally leaves
+// as one write that ends the line; when a write leaves a line unfinished,
+// the rest is still to come, and what other requests log in between is a
+// matter of scheduling: the writer parks there.
+type pieceWriter struct {
+	w io.Writer
+	r *siteRig
+}
+
+func (p *pieceWriter) Write(b []byte) (int, error) {
+	n, err := p.w.Write(b)
+	if len(b) > 0 && b[len(b)-1] != '\n' && !p.r.cleanup {
+		p.r.c.Probe("log-entry-leaves-in-pieces")
+		p.r.parkSeq++
+		p.r.c.Park(fmt.Sprintf("hook.logpiece/#%d", p.r.parkSeq), "log-output")
+	}
+	return n, err
+}
+
+func (p *pieceWriter) Close() error {
+	if cl, ok := p.w.(io.Closer); ok {
+		return cl.Close()
+	}
+	return nil
+}
+
 func (r *siteRig) genReq(id, site string) *sreq {
 	st := r.st
 	q := &sreq{id: id, site: site, method: "GET"}
@@ -624,12 +657,14 @@ func (r *siteRig) genReq(id, site string) *sreq {
 	case cls == 4 && r.gzNot != "":
 		q.path = "/nogz/x"
 	case cls == 5 && r.logExcept != "":
-		q.path = "/p/quiet/x"
+		// excepted paths match like every other path scope: case-insensitively, slashes merged
+		q.path = []string{"/p/quiet/x", "/p/quiet", "/P/Quiet/x", "/p//quiet/x", "/p/QUIET"}[st.Draw(5)]
 		q.noLog = true
 	case cls == 6 && r.hasMime:
 		q.path = "/p/file.xyz"
 	case cls == 7 && r.limitSub != 0:
-		q.path = "/p/sub/x"
+		// inside the nested scope, a sibling that shares its prefix up to the slash, another case
+		q.path = []string{"/p/sub/x", "/p/sub/x", "/p/subway/x", "/P/Sub/x", "/p//sub/x"}[st.Draw(5)]
 	default:
 		q.path = []string{"/p", "/p/x", "/p/y.html"}[st.Draw(3)]
 	}
@@ -643,7 +678,8 @@ func (r *siteRig) genReq(id, site string) *sreq {
 	if r.mode == "C19" {
 		r.hostileRequest(q)
 	}
-	q.ae = []string{"", "gzip", "gzip, deflate, br", "br", "zstd, gzip", "identity", "deflate", "gzip;q=0.5", "br, zstd", "zstd"}[st.Draw(10)]
+	q.ae = []string{"", "gzip", "gzip, deflate, br", "br", "zstd, gzip", "identity", "deflate", "gzip;q=0.5", "br, zstd", "zstd",
+		"gzip;q=0", "br;q=0, gzip", "identity, gzip;q=0.0", "zstd;q=0, br;q=0, gzip;q=0.000", "notgzip", "gzip2, br"}[st.Draw(16)]
 	if sc.mode == "static" {
 		if pick(10) {
 			q.method = "HEAD"
@@ -653,10 +689,7 @@ func (r *siteRig) genReq(id, site string) *sreq {
 	q.method = []string{"GET", "GET", "POST", "POST", "PUT", "HEAD", "DELETE"}[st.Draw(7)]
 	// request body (limits)
 	if q.method == "POST" || q.method == "PUT" {
-		lim := r.limit
-		if strings.HasPrefix(q.path, "/p/sub") && r.limitSub > 0 {
-			lim = r.limitSub
-		}
+		lim := r.limitFor(q.path)
 		var n int
 		if lim > 0 {
 			n = []int{0, lim - 1, lim, lim + 1, lim + 1000, lim * 3}[st.Draw(6)]
@@ -753,6 +786,14 @@ func (r *siteRig) hostileRequest(q *sreq) {
 	if st.Draw(3) == 0 {
 		q.path = []string{"/p/%2e%2e/x", "/p//./../p/x", "/p/%00", "/P/X", "/p/" + strings.Repeat("a/", 200), "/p/x%", "/p/{host}", "/p/%7Bhost%7D", "/secret%2Fx", "/p/auth%2fx"}[st.Draw(10)]
 	}
+	if st.Draw(6) == 0 {
+		// request targets that are not origin-form: the handlers see an empty or odd URL.Path
+		q.target = []string{"http://s.test", "http://s.test?x={host}", "http://s.test/p/x", "http://other.test:99/p", "//s.test/p", "s.test:443", "http://s.test#frag", "/", "http://[::1]"}[st.Draw(9)]
+		if q.target == "s.test:443" {
+			q.method = "CONNECT"
+		}
+		r.c.Fault("hostile-request-target")
+	}
 }
 
 func (r *siteRig) addConn(rs []*sreq) {
@@ -764,6 +805,9 @@ func (r *siteRig) addConn(rs []*sreq) {
 		uri := q.path
 		if q.query != "" {
 			uri += "?" + q.query
+		}
+		if q.target != "" {
+			uri = q.target
 		}
 		host := "s.test"
 		if q.site == "t" {
@@ -1051,13 +1095,7 @@ func (r *siteRig) judgeLimit(q *sreq, resp *sim.Resp, dec []byte) {
 	if r.hasAuth && strings.HasPrefix(q.path, "/p/auth") && !q.auth {
 		return
 	}
-	lim := 0
-	if strings.HasPrefix(q.path, "/p") {
-		lim = r.limit
-	}
-	if strings.HasPrefix(q.path, "/p/sub") && r.limitSub > 0 {
-		lim = r.limitSub // the longest matching scope wins
-	}
+	lim := r.limitFor(q.path)
 	want := q.body
 	tooLarge := false
 	if lim > 0 && len(q.body) > lim {
@@ -1086,6 +1124,24 @@ func (r *siteRig) judgeLimit(q *sreq, resp *sim.Resp, dec []byte) {
 	}
 }
 
+// limitFor is the body limit of the longest scope covering the path. Scopes
+// match as path prefixes after cleaning, case-insensitively; a scope written
+// with a trailing slash covers only what lies below it.
+func (r *siteRig) limitFor(p string) int {
+	cp := strings.ToLower(path.Clean(p))
+	if strings.HasSuffix(p, "/") && cp != "/" {
+		cp += "/"
+	}
+	lim := 0
+	if strings.HasPrefix(cp, "/p") {
+		lim = r.limit
+	}
+	if r.limitSub > 0 && strings.HasPrefix(cp, r.subScope) {
+		lim = r.limitSub
+	}
+	return lim
+}
+
 func sgn(x int) int {
 	if x > 0 {
 		return 1
@@ -1094,6 +1150,29 @@ func sgn(x int) int {
 		return -1
 	}
 	return 0
+}
+
+// offersCoding: the Accept-Encoding header names the coding with a weight other than zero.
+func offersCoding(ae, coding string) bool {
+	for _, a := range strings.Split(ae, ",") {
+		parts := strings.Split(a, ";")
+		if !strings.EqualFold(strings.TrimSpace(parts[0]), coding) {
+			continue
+		}
+		refused := false
+		for _, prm := range parts[1:] {
+			kv := strings.SplitN(strings.TrimSpace(prm), "=", 2)
+			if len(kv) == 2 && strings.EqualFold(strings.TrimSpace(kv[0]), "q") {
+				if f, err := strconv.ParseFloat(strings.TrimSpace(kv[1]), 64); err == nil && f == 0 {
+					refused = true
+				}
+			}
+		}
+		if !refused {
+			return true
+		}
+	}
+	return false
 }
 
 func (r *siteRig) judgeCompression(q *sreq, resp *sim.Resp, dec []byte, derr error, bodyless bool) {
@@ -1120,12 +1199,7 @@ func (r *siteRig) judgeCompression(q *sreq, resp *sim.Resp, dec []byte, derr err
 	if cl := resp.Header.Get("Content-Length"); cl != "" && !bodyless && cl != fmt.Sprint(len(resp.Body)) {
 		c.Violate("C18/content-length-wrong", sig, "request %s: Content-Length %s but %d entity bytes on the wire", q.id, cl, len(resp.Body))
 	}
-	offersGzip := false
-	for _, a := range strings.Split(q.ae, ",") {
-		if strings.TrimSpace(strings.SplitN(a, ";", 2)[0]) == "gzip" {
-			offersGzip = true
-		}
-	}
+	offersGzip := offersCoding(q.ae, "gzip")
 	twCE := ""
 	if tw != nil {
 		twCE = tw.Header.Get("Content-Encoding")
@@ -1134,13 +1208,7 @@ func (r *siteRig) judgeCompression(q *sreq, resp *sim.Resp, dec []byte, derr err
 		c.Violate("C18/gzip-not-offered", sig, "request %s (%s): the client did not offer gzip (Accept-Encoding %q) but the response is gzip-coded", q.id, q.path, q.ae)
 	}
 	if q.script.mode == "static" && ce != "" {
-		offered := false
-		for _, a := range strings.Split(q.ae, ",") {
-			if strings.TrimSpace(strings.SplitN(a, ";", 2)[0]) == ce {
-				offered = true
-			}
-		}
-		if !offered {
+		if !offersCoding(q.ae, ce) {
 			c.Violate("C18/coding-not-offered", fmt.Sprintf("ce=%q", ce), "request %s (%s, siblings %v): the client offered Accept-Encoding %q but the response is %q-coded", q.id, q.path, r.siblings[q.path], q.ae, ce)
 		}
 		c.Probe("precompressed-sibling-served")
